@@ -7,7 +7,7 @@ for p in "$@"; do
   cd $W && git checkout -q -- . && git clean -qfd -e _build
   mkdir -p seeded && cp /verif/seeded/$p/* seeded/
   git apply seeded/patch.diff || { echo "PATCH FAILS TO APPLY"; continue; }
-  (cmake -G Ninja -B _build >/dev/null && cmake --build _build 2>&1 | grep -E "\berror\b" | head -3; ctest --test-dir _build -j4 --timeout 900 2>&1 | tail -3)
+  (cmake -G Ninja -B _build >/dev/null && cmake --build _build 2>&1 | grep -E "\berror\b" | head -3; ctest --test-dir _build -j4 --timeout 900 > /tmp/ctest-val.log 2>&1; grep -E "tests passed|\*\*\*|Failed|Timeout" /tmp/ctest-val.log | head -8; if ! grep -q "100% tests passed" /tmp/ctest-val.log; then echo "re-running the failed tests alone (hard 60 s per-test limit, machine load):"; ctest --test-dir _build --rerun-failed 2>&1 | grep -E "tests passed|\*\*\*|Failed|Timeout" | head -8; fi)
   for d in seeded/demo.sh seeded/demo2.sh; do [ -f $d ] && { bash $d > /tmp/dw.log 2>&1; echo "WITH patch: $d exit $?"; tail -2 /tmp/dw.log; }; done
   git apply -R seeded/patch.diff
   for d in seeded/demo.sh seeded/demo2.sh; do [ -f $d ] && { bash $d > /tmp/dwo.log 2>&1; echo "WITHOUT patch: $d exit $?"; tail -2 /tmp/dwo.log; }; done
